@@ -176,6 +176,9 @@ def run_job(job, rec):
         gtol = 1e-11 * np.abs(contrib).sum(axis=0) + 1e-300
         ok = g.shape == gref.shape and bool(np.all(np.abs(g - gref) <= gtol))
         rec.check(ok, "gradient", lambda: f"{name} gradient {g} != analytic reference {gref}", rec.context)
+        g_again = guarded(L.gradient, theta)
+        rec.check((not isinstance(g_again, Raised)) and np.array_equal(np.asarray(g_again, float), g) and guarded(L, theta) == val, "repeated-call-differs",
+                  "two identical calls returned different values / gradients", rec.context)
         cg = guarded(L.cost_gradient, theta)
         rec.check((not isinstance(cg, Raised)) and np.array_equal(np.asarray(cg), -g), "cost-gradient-not-negative",
                   "cost_gradient is not the exact negative of gradient", rec.context)
